@@ -14,7 +14,8 @@ package archiver
 //@ func (*archiver).worker
 //@   property C17
 //@   attr hooked @C01 inputCh,outputCh
-//@   attr cancellable @C03 inputCh,outputCh
+//@   attr cancellable @C03 inputCh,outputCh,ResumeCh
+//@   replay c03_stopPaused_archiver:cancellable:ResumeCh
 //@   local nIn int = 0
 //@   local nOut int = 0
 //@   local inHand *models.Item = nil
